@@ -160,13 +160,14 @@ func runRoute(t *testing.T, c spec.Case, e Em) {
 	for i := 0; i < p.DispN; i++ {
 		names = append(names, fmt.Sprintf("p%d", i))
 	}
-	pr, err := newPair(t, p.Kind, names...)
+	pairNames := names
+	if p.WrapDispense && p.Kind == "mux" {
+		pairNames = append(append([]string(nil), names...), "__wrap")
+	}
+	pr, err := newPair(t, p.Kind, pairNames...)
 	if err != nil {
 		e.Note("pair-error", err.Error())
 		return
-	}
-	if p.WrapDispense && pr.plugMux != nil {
-		plugin.VerifSetNextId(pr.plugMux, ^uint32(0)-2)
 	}
 	var inflight, maxPend atomic.Int32
 	var connsMu sync.Mutex
